@@ -24,7 +24,7 @@ CompChk(o, in, nc) ==
   /\ Chk("weights-positive", o.inf \/ \A j \in 1..Len(nc) : nc[j].w > 0)
   /\ Chk("sorted", o.inf \/ SortedCent(nc))
   /\ Chk("coarsening", o.inf \/ \A s \in {ByMean(in)} : IsCoarsening(s, nc))
-  /\ Chk("capacity", o.inf \/ Len(nc) <= o.cap)
+  /\ Chk("centroid-bound", o.inf \/ Len(nc) <= o.cap)
 
 \* cheap getters logged on every event against the model
 Scalars(e, o) ==
@@ -34,6 +34,7 @@ Scalars(e, o) ==
   /\ Chk("max", o.total > 0 => e.max = o.maxD)
   /\ Chk("num-centroids", e.nc = Len(o.cent))
   /\ Chk("num-buffered", e.nb = Len(o.buf))
+  /\ Chk("centroid-bound", o.inf \/ e.nc <= o.cap)          \* at every event: never more centroids than the reported capacity
 
 \* full projection r of a real object against a model value o
 ProjOK(r, o) ==
@@ -43,6 +44,7 @@ ProjOK(r, o) ==
   /\ Chk("min", o.total > 0 => r.min = o.minD)
   /\ Chk("max", o.total > 0 => r.max = o.maxD)
   /\ Chk("centroids", r.cent = o.cent)
+  /\ Chk("centroid-bound", o.inf \/ Len(r.cent) <= r.cap)
   /\ Chk("buffer", Srt(r.buf) = Srt(o.buf))
   /\ Chk("weight-sum", r.total = SumW(r.cent) + Len(r.buf))
 \* an image of a single value does not say whether the value was buffered: both forms are the same sketch
